@@ -58,6 +58,11 @@ impl IntRange {
         let end = self.start + self.count;
         self.start <= value && value < end && (value - self.start).is_multiple_of(self.step)
     }
+
+    /// Number of ids in the range (`count` is the distance between the start and the end)
+    pub fn id_count(&self) -> u32 {
+        self.count.div_ceil(self.step)
+    }
 }
 
 impl Debug for IntRange {
@@ -113,9 +118,14 @@ impl IntArray {
         }
     }
 
+    /// Number of ids in the array (`0-10:5` has 3 ids).
+    /// Ranges of a received array may overlap, so the sum of their sizes does not have to
+    /// fit into u32; the result is saturated in such a case.
     #[inline]
     pub fn id_count(&self) -> u32 {
-        self.ranges.iter().map(|x| x.count).sum()
+        self.ranges
+            .iter()
+            .fold(0, |count, x| count.saturating_add(x.id_count()))
     }
 
     #[inline]
